@@ -34,6 +34,8 @@ type TypeOpts struct {
 	IgnoreAlone bool
 	// Depth of anonymous container nesting in field types (default 2)
 	Depth int
+	// Pointers: recursive shapes through pointers (analysis only: C12, C18)
+	Pointers bool
 	// NoRoot: place the module outside any go/src/ directory (affects the Dart linker only)
 }
 
@@ -259,7 +261,7 @@ func (g *gen) enumDecl(stem, under string, forcePlainIota bool) *Decl {
 		}
 		return ""
 	}
-	style := g.r.Intn(9)
+	style := g.r.Intn(10)
 	if forcePlainIota {
 		style = 0
 	}
@@ -341,6 +343,15 @@ func (g *gen) enumDecl(stem, under string, forcePlainIota bool) *Decl {
 			blk.Specs = append(blk.Specs, c)
 		}
 		d.Tag("opt-out-some")
+	case 8: // an unexported member exactly filling a gap of the exported values: A=0, b=1, C=2, D=3
+		for i := 0; i < n+1; i++ {
+			c := &Const{Names: []string{mk(i, i != 1)}, Comment: comment(i)}
+			if i == 0 {
+				c.Type, c.Value = true, "iota"
+			}
+			blk.Specs = append(blk.Specs, c)
+		}
+		d.Tag("iota-unexported-gap-filler")
 	default: // multi-name specs (when enabled) else iota with skip expression
 		if g.opts.MultiNameConst {
 			a, b := mk(0, true), mk(1, true)
@@ -460,7 +471,13 @@ func (g *gen) makeNameds() {
 		g.p.Feature("named-basic:" + d.Under.Basic)
 	}
 	if g.opts.NamedTimes {
-		d := g.add(&Decl{Name: g.fresh(g.pick(typeStems) + "Stamp"), Kind: DNamed, Under: Std("time.Time"), TimeHelpers: true})
+		name := g.fresh(g.pick(typeStems) + "Stamp")
+		if g.pr(0.15) && !g.names["Time"] {
+			name = "Time" // a user wrapper called exactly like the standard type
+			g.names["Time"], g.names["time"] = true, true
+			g.p.Feature("named-time-called-Time")
+		}
+		d := g.add(&Decl{Name: name, Kind: DNamed, Under: Std("time.Time"), TimeHelpers: true})
 		g.nameds = append(g.nameds, d)
 		g.p.Feature("named-time")
 		if g.pr(0.7) {
@@ -930,6 +947,19 @@ func reachesSelf(from, target *Decl) bool { return from == target }
 // recursive shapes
 
 func (g *gen) makeRecursive() {
+	if g.opts.Pointers {
+		// pointer shapes: linked struct, self-referencing named array of pointers, mutual named arrays
+		n := g.add(&Decl{Name: g.fresh("Linked"), Kind: DStruct})
+		n.Fields = []*Field{{Name: "Val", Type: Basic("int")}, {Name: "Next", Type: Pointer(Ref(n))}, {Name: "Pair", Type: Array(2, Pointer(Ref(n)))}, {Name: "ByName", Type: Map(Basic("string"), Pointer(Ref(n)))}}
+		tr := g.add(&Decl{Name: g.fresh("PtrTree"), Kind: DNamed})
+		tr.Under = Array(2, Pointer(Ref(tr)))
+		a := g.add(&Decl{Name: g.fresh("PtrPing"), Kind: DNamed})
+		b := g.add(&Decl{Name: g.fresh("PtrPong"), Kind: DNamed})
+		a.Under, b.Under = Array(2, Pointer(Ref(b))), Array(3, Pointer(Ref(a)))
+		sl := g.add(&Decl{Name: g.fresh("PtrList"), Kind: DNamed})
+		sl.Under = Slice(Pointer(Ref(sl)))
+		g.p.Feature("recursive:pointers")
+	}
 	if g.pr(0.25) {
 		// a cycle of 3-4 structs through slices, maps and named slices
 		k := 3 + g.r.Intn(2)
